@@ -229,7 +229,7 @@ theorem init_pair (A B : Ind F) (hne : A.name ≠ B.name) (cfg : MgrCfg) (tfn : 
   cases tasks cfg cs with
   | error e => rfl
   | ok dm =>
-    simp only [bind, Except.bind, pure, Except.pure, List.foldlM_cons, List.foldlM_nil, Hexital.attach, plainMember,
+    simp only [bind, Except.bind, pure, Except.pure, List.foldlM_cons, List.foldlM_nil, Hexital.attachFrom, plainMember,
       dset, hne, if_false]
     rfl
 
@@ -666,15 +666,15 @@ theorem initHx_inv (ts : List (Ind F)) (cfg : MgrCfg) (tfn : Option String) (dm 
 def regFold (ms : List (Ind F)) (acc : List (String × HxInd F)) : List (String × HxInd F) :=
   ms.foldl (fun acc t => dset t.name { tree := t, mgrKey := defaultKey } acc) acc
 
-theorem attach_plain_fold (ms : List (Ind F)) :
-    ∀ (h : Hexital F), (ms.map plainMember).foldlM Hexital.attach h
+theorem attach_plain_fold (src : Option (List (Candle F))) (ms : List (Ind F)) :
+    ∀ (h : Hexital F), (ms.map plainMember).foldlM (Hexital.attachFrom src) h
       = .ok { h with indicators := regFold ms h.indicators } := by
   induction ms with
   | nil => intro h; rfl
   | cons t r ih =>
     intro h
     rw [List.map_cons, List.foldlM_cons]
-    have : Hexital.attach h (plainMember t)
+    have : Hexital.attachFrom src h (plainMember t)
         = .ok { h with indicators := dset t.name { tree := t, mgrKey := defaultKey } h.indicators } := rfl
     rw [this]
     simp only [bind, Except.bind]
